@@ -12,5 +12,11 @@ for pkg in ("vh-mpq", "vh-formats", "vh-ffi"):
     for src in sorted(glob.glob(f"harness/{pkg}/src/bin/*.rs")):
         b = os.path.basename(src)[:-3]
         sup.build(pkg, b, quiet=False)
+# sanitizer flavor the quick tier uses (C19 runs a slice of its histories under AddressSanitizer); a failure here is not
+# fatal for setup: the check reports that slice as inconclusive
+try:
+    sup.build("vh-ffi", "c19", flavor="asan", quiet=False)
+except Exception as ex:
+    print("asan pre-build failed:", str(ex)[:300])
 PY
 echo "setup done"
